@@ -1,6 +1,10 @@
 ----------------------------- MODULE UpdatesGen -----------------------------
 (* Case generation for C15.  A plan is a sequence of entries                *)
 (*   [k, n, L, T, un, smp]                                                  *)
+(* smp = -1: as smp = 0 and in addition every own time of the element       *)
+(*          (OwnChoices: Timestamp unset / before / at / between / after    *)
+(*          the stamps, Committed nil / earlier / equal / later);           *)
+(*          in all other entries the own time of each case is drawn by TLC. *)
 (* smp = 0: every stored list of exactly L updates over n children (child   *)
 (*          un of a way not annotated, 0 = fully annotated) and times 1..T, *)
 (*          every t1 <= t2 in 0..T (exhaustive);                            *)
@@ -18,14 +22,18 @@ E(k, n, L, T, un, smp) == [k |-> k, n |-> n, L |-> L, T |-> T, un |-> un, smp |-
 \* all list lengths 0 .. L, one entry per length
 Lens(k, n, L, T, un) == [l \in 1 .. L + 1 |-> E(k, n, l - 1, T, un, 0)]
 
+OwnLens(k, n, L, T, un) == [l \in 1 .. L + 1 |-> E(k, n, l - 1, T, un, -1)]
+
 QuickPlan ==
-     Lens("way", 1, 3, 2, 0) \o Lens("way", 2, 3, 2, 0) \o Lens("way", 2, 2, 2, 1)
+     OwnLens("way", 1, 2, 2, 0) \o << E("relation", 1, 1, 2, 0, -1) >>
+  \o Lens("way", 1, 3, 2, 0) \o Lens("way", 2, 3, 2, 0) \o Lens("way", 2, 2, 2, 1)
   \o Lens("relation", 1, 2, 2, 0) \o Lens("relation", 2, 2, 2, 0) \o Lens("relation", 3, 2, 2, 0)
   \o << E("way", 3, 4, 3, 0, 700), E("way", 4, 5, 3, 0, 700), E("way", 3, 5, 3, 3, 300),
         E("relation", 3, 4, 3, 0, 500), E("relation", 4, 5, 3, 0, 500) >>
 
 ThoroughPlan ==
-     Lens("way", 1, 4, 3, 0) \o Lens("way", 2, 4, 3, 0) \o Lens("way", 3, 3, 3, 0) \o << E("way", 3, 4, 2, 0, 0) >>
+     OwnLens("way", 1, 2, 3, 0) \o << E("way", 2, 2, 2, 0, -1), E("relation", 1, 1, 3, 0, -1) >>
+  \o Lens("way", 1, 4, 3, 0) \o Lens("way", 2, 4, 3, 0) \o Lens("way", 3, 3, 3, 0) \o << E("way", 3, 4, 2, 0, 0) >>
   \o Lens("way", 2, 3, 3, 1) \o Lens("way", 2, 3, 3, 2)
   \o Lens("relation", 1, 3, 3, 0) \o Lens("relation", 2, 3, 3, 0) \o Lens("relation", 3, 2, 3, 0)
   \o << E("relation", 3, 3, 2, 0, 0) >>
@@ -34,9 +42,11 @@ ThoroughPlan ==
 
 CONSTANT Plan
 
+DrawOwn(T) == RandomElement(OwnChoices(T))
 EntryCases(e) ==
-  IF e.smp = 0 THEN CasesExact(e.k, e.n, e.L, e.T, e.un)
-  ELSE {Case(e.k, ChildrenOf(e.k, e.n, e.un), MkList(f), RandomElement(Pairs(e.T)), e.T) :
+  IF e.smp = -1 THEN CasesExactOwn(e.k, e.n, e.L, e.T, e.un)
+  ELSE IF e.smp = 0 THEN CasesExact(e.k, e.n, e.L, e.T, e.un, DrawOwn)
+  ELSE {Case(e.k, ChildrenOf(e.k, e.n, e.un), MkList(f), RandomElement(Pairs(e.T)), e.T, DrawOwn(e.T)) :
           f \in RandomSubset(e.smp, [1 .. e.L -> Choice(e.k, e.n, e.T)])}
 
 Mine == {i \in 1 .. Len(Plan) : i % atoi(IOEnv.MOD) = atoi(IOEnv.REM)}
